@@ -198,7 +198,10 @@ def _derived(draw):
                 vals = [draw(st.sampled_from([0.0, 0.0, -1.0, -250.5])) for _ in range(n)]
             else:
                 vals[draw(st.integers(0, n - 1))] = draw(st.floats(1.5, 1e7))     # at least one positive
-            sets.append(dict(kind='array', values=vals, width=draw(st.integers(1, 3))))
+            as_int = (not nonpos) and draw(st.sampled_from([False, False, True]))
+            if as_int:
+                vals = [float(int(v)) for v in vals]          # a signed integer array (negative events keep their meaning)
+            sets.append(dict(kind='array', values=vals, width=draw(st.integers(1, 3)), as_int=as_int))
         else:
             spec = draw(sample_spec(min_d=1, max_d=3, min_n=1, max_n=25, datatypes=('I', 'F'), log_amp=False))
             spec['negatives'] = draw(st.booleans())
@@ -256,7 +259,7 @@ def check(case, obs):
                          + [s_['col'] for s_ in case['sets'] if s_['kind'] == 'sample'][:1])
         for sset in case['sets']:
             if sset['kind'] == 'array':
-                a = np.array(sset['values'], dtype=float)
+                a = np.array(sset['values'], dtype=np.int64 if sset.get('as_int') else float)
                 if chmode != 'flat':
                     cols = [np.full_like(a, 7.0 + 3.0 * j) for j in range(sset['width'])]
                     cols[common] = a
@@ -308,7 +311,12 @@ def check(case, obs):
         arg = data if case['as_list'] else data[0]
         if not case['as_list'] and len(data) > 1:
             arg = data
+        held = list(arg) if isinstance(arg, list) else None
         t = call(FlowCal.plot._LogicleTransform, data=arg, channel=ch, **over)
+        if held is not None:
+            # the list belongs to the caller, who may derive the scale of another channel from it next
+            obs.claim('input_intact', len(arg) == len(held) and all(a_ is b_ for a_, b_ in zip(arg, held)),
+                      'the list of data sets handed to the transform was changed')
         obs.nontrivial = any(r < 0 for r in mins) or len(data) > 1
         obs.label('derived:' + case['kind'], 'negatives' if any(r < 0 for r in mins) else 'no_negatives')
         if not obs.claim('derived', not raised(t), lambda: 'construction from data failed: %r' % (t,)):
